@@ -35,7 +35,7 @@ ASSUMPTIONS = [
     "float attributes hold non-NaN values; STRINGS attributes hold valid UTF-8 (STRING may hold any bytes)",
     "order of string-string maps and of quantization annotations (keyed by tensor name) is not information",
 ]
-BUDGET = {"quick": (16, 500), "thorough": (16, 12000)}
+BUDGET = {"quick": (16, 1000), "thorough": (16, 12000)}
 RARE = {"tensor_metadata", "value_metadata", "node_metadata", "overload", "function_overload", "dim_denotation",
         "type_denotation", "nested_type", "lowbit_tensor", "attr_doc", "device_configuration",
         "quantization_annotation", "ref_attr", "typed_tensor_field", "graph_metadata", "function_metadata"}
